@@ -229,6 +229,8 @@ static Probe probe(const Plan& plan, const Target& t) {
   if (pid < 0) sim_die("fork");
   if (pid == 0) {
     close(fds[0]);
+    child_prologue(false);
+    alarm(120);  // a probe executes whole plans (and their history)
     // crash lines of the child go to the pipe too
     FILE* o = fdopen(fds[1], "w");
     g_out = o;
